@@ -153,6 +153,16 @@ impl Stack {
         self.stack.truncate(frame.frame_pointer());
     }
 
+    /// The number of values on the stack.
+    pub(crate) fn len(&self) -> usize {
+        self.stack.len()
+    }
+
+    /// Truncate the stack to the given length.
+    pub(crate) fn truncate(&mut self, len: usize) {
+        self.stack.truncate(len);
+    }
+
     /// Split the stack at the given frame.
     pub(crate) fn split_off_frame(&mut self, frame: &CallFrame) -> Self {
         let frame_pointer = frame.frame_pointer();
@@ -838,7 +848,12 @@ impl Context {
                 frame = Some(f);
             }
             self.vm.frame_mut().environments.truncate(env_fp);
-            if let Some(frame) = frame {
+            if self.vm.frame().exit_early() {
+                // The Rust caller pops this frame without looking at the stack again:
+                // leave the stack as `handle_return` would.
+                let frame = self.vm.frames.last().expect("frame must exist");
+                self.vm.stack.truncate_to_frame(frame);
+            } else if let Some(frame) = frame {
                 self.vm.stack.truncate_to_frame(&frame);
             }
             return ControlFlow::Break(CompletionRecord::Throw(err));
@@ -937,6 +952,11 @@ impl Context {
             }
 
             if exit_early {
+                // The Rust caller pops this frame without looking at the stack again:
+                // drop its environments and values like the branch above does.
+                self.vm.frame_mut().environments.truncate(env_fp as usize);
+                let frame = self.vm.frames.last().expect("frame must exist");
+                self.vm.stack.truncate_to_frame(frame);
                 return ControlFlow::Break(CompletionRecord::Throw(
                     self.vm
                         .pending_exception
